@@ -171,6 +171,31 @@ func (r *c09Run) explore(units [][]c09Case, progress func(i int, res []c09Result
 		}
 	}
 	r.c.Ev.Count("faults_listed_unconfirmed", accepted)
+	// bound the confirmation work: beyond 400 faults, or 24 deadline / memory kills, in one sweep the
+	// first-pass observation is taken as it is (how=unconfirmed) — a run with that many new faults is
+	// a violation whatever the rest turns out to be
+	{
+		var keep []ref
+		slow := 0
+		for _, f := range faults {
+			st := res[f.u][f.k].Status
+			isSlow := st == "H" || st == "M"
+			if len(keep) >= 400 || (isSlow && slow >= 24) {
+				if st != "S" {
+					obs[f.u][f.k].Kind, obs[f.u][f.k].How = c09FaultKind(res[f.u][f.k]), "unconfirmed"
+				} else {
+					obs[f.u][f.k].Kind, obs[f.u][f.k].How = "unit-abandoned", "sequence"
+				}
+				continue
+			}
+			if isSlow {
+				slow++
+			}
+			keep = append(keep, f)
+		}
+		r.c.Ev.Count("faults_unconfirmed_overflow", len(faults)-len(keep))
+		faults = keep
+	}
 	// (1) alone
 	iso := make([][]c09Case, len(faults))
 	for i, f := range faults {
@@ -403,6 +428,7 @@ func runC09(c *lib.Ctx) {
 	}
 	r.writeCandidates()
 	c.Ev.Coverage["nontrivial_counted"] = r.nontrivial
+	c.Ev.Coverage["traces_validated_against_impl"] = r.evals
 	c.Ev.Coverage["unreproduced_faults"] = r.unrepro
 	c.Ev.Coverage["worker_starts"] = r.eng.starts.Load()
 	c.Ev.Coverage["worker_kills"] = r.eng.kills.Load()
@@ -482,7 +508,6 @@ func (r *c09Run) sweepBuiltins() {
 	}
 	c.Ev.Coverage["pair_sweep_cases"] = total
 	c.Ev.Coverage["pair_sweep_fault_cells"] = faults
-	c.Ev.Coverage["traces_validated_against_impl"] = total
 	// slowest units
 	type kv struct {
 		k string
@@ -623,13 +648,25 @@ func (r *c09Run) report(sig string, sweep bool, text, kind string, ob c09Obs, no
 	if kind == "R" {
 		in["text_hex"] = lib.Hex(text)
 	}
-	r.c.Report(sig, sweep, map[string]any{
+	rep := map[string]any{}
+	if r.c.GenBroken != "" {
+		// a generated obligation no longer builds for this tree: this failing input is its witness
+		rep["broken"] = map[string]any{"obligation": r.c.GenBroken, "lean_error": "see .work/run/C09/gen-broken.txt"}
+	}
+	r.c.Report(sig, sweep, c09Merge(rep, map[string]any{
 		"input":         in,
 		"note":          note,
 		"observed":      ob.Res.Summary(),
 		"expected":      c09Expected,
 		"expected_from": "property statement (exploration: the implementation is observed directly, no model in the loop)",
-	})
+	}))
+}
+
+func c09Merge(a, b map[string]any) map[string]any {
+	for k, v := range b {
+		a[k] = v
+	}
+	return a
 }
 
 // writeCandidates writes every signature reported in this run in the format of findings/C09.json
@@ -757,13 +794,13 @@ func (r *c09Run) sweepReader() {
 			case strings.HasPrefix(rep, "err"):
 				// excluded by Theorems.GenC09.reader_run_total_now while the obligation builds
 				c.Report("reader-model aspect=model-fault", false, map[string]any{
-					"input": map[string]any{"kind": "R", "text": in, "text_hex": lib.Hex(in)}, "observed": "model: " + rep,
+					"input": map[string]any{"kind": "R", "text": in, "text_hex": lib.Hex(in)}, "request": reqs[i], "observed": "model: " + rep,
 					"expected": "ok must-raise | ok may-pass", "expected_from": "model:tot.reader", "relies_on": []string{"SlipVerif.Theorems.GenC09.reader_run_total_now"}})
 			case strings.HasPrefix(rep, "ok must-raise"):
 				must++
 				if obs[u][k].Res.Status == "V" {
 					c.Report("reader-model aspect=value-where-tables-have-no-action", false, map[string]any{
-						"input": map[string]any{"kind": "R", "text": in, "text_hex": lib.Hex(in)}, "observed": obs[u][k].Res.Summary(),
+						"input": map[string]any{"kind": "R", "text": in, "text_hex": lib.Hex(in)}, "request": reqs[i], "observed": obs[u][k].Res.Summary(),
 						"expected": "a condition: " + rep + " (no action in the byte tables for any reachable mode)", "expected_from": "model:tot.reader",
 						"relies_on": []string{"SlipVerif.Theorems.C09.reader_run_total"}})
 				} else {
@@ -895,13 +932,13 @@ func (r *c09Run) sweepFormat() {
 			switch {
 			case strings.HasPrefix(rep, "err"):
 				c.Report("format-model aspect=model-fault", false, map[string]any{
-					"input": map[string]any{"kind": "E", "text": units[u][k].Text}, "observed": "model: " + rep,
+					"input": map[string]any{"kind": "E", "text": units[u][k].Text}, "request": reqs[ref[2]], "observed": "model: " + rep,
 					"expected": "ok …", "expected_from": "model:tot.format", "relies_on": []string{"SlipVerif.Theorems.GenC09.format_scan_total_now"}})
 			case rep == "ok raise":
 				raise++
 				if obs[u][k].Res.Status == "V" {
 					c.Report("format-model aspect=value-for-unknown-directive", false, map[string]any{
-						"input": map[string]any{"kind": "E", "text": units[u][k].Text}, "observed": obs[u][k].Res.Summary(),
+						"input": map[string]any{"kind": "E", "text": units[u][k].Text}, "request": reqs[ref[2]], "observed": obs[u][k].Res.Summary(),
 						"expected": "a condition: the byte after ~ (and its modifiers / parameters) has no clause in readDir", "expected_from": "model:tot.format",
 						"relies_on": []string{"SlipVerif.Theorems.C09.format_unknown_raises"}})
 				} else {
@@ -1063,7 +1100,7 @@ func (r *c09Run) groupCorrespondence() {
 				agree++
 			} else {
 				c.Report("group-model aspect=grouped-digits", false, map[string]any{
-					"input": map[string]any{"kind": "E", "text": cases[i].Text}, "observed": rs.Summary(), "expected": want,
+					"input": map[string]any{"kind": "E", "text": cases[i].Text}, "request": reqs[i], "observed": rs.Summary(), "expected": want,
 					"expected_from": "model:tot.group", "relies_on": []string{"SlipVerif.Theorems.C09.group_slices_in_range", "SlipVerif.Theorems.C09.group_slices_cover"}})
 			}
 			c.Ev.Case(cases[i].Text, true)
@@ -1131,9 +1168,28 @@ func (r *c09Run) replay() {
 		res = conf.RunUnit([]c09Case{{kind, text}}, true)[0]
 	}
 	fk := c09FaultKind(res)
+	sig, _ := rec["signature"].(string)
+	if req, ok := rec["request"].(string); ok && c.ModelBin != "" && strings.Contains(sig, "-model ") {
+		// a disagreement with the model: ask the model again
+		rep := c.Model([]string{req})[0]
+		fmt.Printf("replay %s %q\n  implementation: %s\n  model (%s): %s\n", kind, text, res.Summary(), req, rep)
+		bad := strings.HasPrefix(rep, "err")
+		switch {
+		case strings.HasPrefix(sig, "reader-model"):
+			bad = bad || (strings.HasPrefix(rep, "ok must-raise") && res.Status == "V")
+		case strings.HasPrefix(sig, "format-model"):
+			bad = bad || (rep == "ok raise" && res.Status == "V")
+		case strings.HasPrefix(sig, "group-model"):
+			f := strings.Fields(rep)
+			bad = bad || len(f) != 2 || res.Status != "V" || res.Text != "\""+lib.Unhex(f[1])+"\""
+		}
+		if bad || fk != "" {
+			c.Report(sig, false, map[string]any{"input": in, "observed": res.Summary(), "expected": rep})
+		}
+		return
+	}
 	fmt.Printf("replay %s %q\n  observed: %s\n  fault kind: %q\n  expected: %s\n", kind, text, res.Summary(), fk, c09Expected)
 	if fk != "" {
-		sig, _ := rec["signature"].(string)
 		c.Report(sig, false, map[string]any{"input": in, "observed": res.Summary(), "expected": c09Expected})
 	}
 }
